@@ -60,6 +60,8 @@ type Gen struct {
 	nonce int
 	queue []Op // ops that a family wants to follow the one it just returned (same transaction)
 	scn   scnState
+	lastCtA int    // contract most recently added / updated by a generated transaction: called soon afterwards
+	lastCtS string
 }
 
 func (g *Gen) path() string { return fmt.Sprintf("p%d", g.R.Intn(g.Cfg.NPaths)) }
@@ -475,6 +477,7 @@ var containerTypes = []*Ty{
 	TDict(TString, TInt), TDict(TInt, TString), TDict(TString, TArr(TInt)), TDict(TString, TS),
 	TCArr(TInt, 3),
 	TArr(TU64), TArr(TArr(TU64)), TDict(TString, TArr(TU64)),
+	TDict(TU64, TString), // fixed-size keys, variable-size values: a small dictionary whose (long) string values live in slabs of their own
 }
 
 func isContainer(v *Val) bool {
@@ -810,6 +813,14 @@ func (g *Gen) ops(isScript bool) []Op {
 	scratch.Ctr.BeginTx()
 	g.M = scratch
 	// a call into a deployed contract needs an import, i.e. a transaction of its own
+	if g.Cfg.Families["contract"] > 0 && !isScript && g.lastCtS != "" && g.R.Chance(0.5) {
+		// call into the version that was just deployed (emits the event declared by that version)
+		a, name := g.lastCtA, g.lastCtS
+		g.lastCtS = ""
+		if g.M.Ctr.get(a, name) != nil {
+			return []Op{{K: "ct.call", A: a, S: name}}
+		}
+	}
 	if g.Cfg.Families["contract"] > 0 && !isScript && g.R.Chance(0.2) {
 		a := g.acct()
 		name := ctNames[g.R.Intn(len(ctNames))]
@@ -834,6 +845,9 @@ func (g *Gen) ops(isScript bool) []Op {
 		scratch = try
 		g.M = mergeForGen(g.M, scratch)
 		ops = append(ops, o)
+		if !isScript && (o.K == "ct.add" || o.K == "ct.update" || o.K == "ct.tryUpdate") {
+			g.lastCtA, g.lastCtS = o.A, o.S
+		}
 	}
 	return ops
 }
